@@ -20,7 +20,10 @@ def draw_args(d: Draw, dg: dict, p_skip_default: float = 0.5) -> List[str]:
     for p in dg["params"]:
         if p[1] and d.bool(p_skip_default):
             break
-        args.append(d.pick(ARG_VALUES))
+        if len(p) > 3 and p[3] == "any" and d.bool(0.12):
+            args.append("None")   # an explicit None is a value like any other (also for a parameter that has a default)
+        else:
+            args.append(d.pick(ARG_VALUES))
     return args
 
 
@@ -103,7 +106,11 @@ def scn_sched(d: Draw, prof: dict, *, selections: float = 0.0, history: float = 
         conf: Dict[str, Any] = {"nodes": nodes}
         if d.bool(0.3):
             conf["max_concurrency"] = d.int(1, 4)
-        ops.append(dict(op="config", inst="E:main", cfg=conf, how=d.pick(["dict", "json", "yaml"])))
+        how = d.pick(["dict", "json", "yaml"])
+        if d.bool(0.2):
+            # the limit alone, sometimes by plain assignment of the public attribute
+            conf, how = {"max_concurrency": d.int(1, 5)}, d.pick(["attr", "attr", "dict", "yaml"])
+        ops.append(dict(op="config", inst="E:main", cfg=conf, how=how))
     if history and d.bool(history):
         for _ in range(d.int(1, 2)):
             ops.append(dict(op="call", inst="E:main", args=draw_args(d, dg)))
@@ -149,7 +156,12 @@ P_C05 = gen.profile(**{**gen.SCHED, "p_seq": 0.35, "mc": (2, 5), "n_stmts": (3, 
 P_C06 = gen.profile(**{**gen.SCHED, "prio": (-3, 5), "p_prio": 0.85, "p_flag": 0.1})
 P_C06D = gen.profile(**{**gen.SCHED, "prio": (-3, 5), "p_prio": 0.9, "p_flag": 0.05, "p_debug": 0.3, "n_stmts": (3, 10)})
 P_C08 = gen.profile(**{**gen.SCHED, "mc": (2, 5), "n_stmts": (3, 10), "p_seq": 0.15})
-P_C09 = gen.profile(**{**gen.SCHED, "swarm": ("resources", "p_dep", "max_args", "p_seq", "p_prio"), "p_flag": 0.25, "p_seq": 0.25, "p_setup": 0.08})
+P_C09 = gen.profile(**{**gen.SCHED, "swarm": ("resources", "p_dep", "max_args", "p_seq", "p_prio"), "p_flag": 0.3, "p_seq": 0.25, "p_setup": 0.08,
+                       "ret_types": [("int", 5), ("bool", 2), ("tuple2", 3), ("dict", 1)], "p_unpack": 0.4, "p_flag_sibling": 0.5})
+
+
+P_C09L = gen.profile(**{**gen.SCHED, "resources": [("async_thread", 6), ("thread", 2), ("main_thread", 1)], "n_stmts": (2, 7), "mc": (2, 5),
+                        "n_params": (0, 2), "p_flag": 0.1, "p_setup": 0.0, "p_dep": 0.5})
 
 
 def g_c02(d: Draw) -> dict:
@@ -197,19 +209,30 @@ def g_c06(d: Draw) -> dict:
 
 
 def g_c08(d: Draw) -> dict:
-    return scn_sched(d, P_C08)
+    return scn_sched(d, P_C08, config=0.3, history=0.15, selections=0.15)
 
 
 def g_c09(d: Draw) -> dict:
-    mode = d.weighted([("faults", 6), ("cancel", 2), ("setup", 2)])
-    if mode == "cancel":
-        spec = gen.gen_program(d, P_C09)
+    mode = d.weighted([("faults", 6), ("cancel", 2), ("setup", 2), ("loopfault", 2)])
+    if mode in ("cancel", "loopfault"):
+        spec = gen.gen_program(d, P_C09 if mode == "cancel" else P_C09L)
         dg = spec["dags"]["main"]
         inst = "E:main" if dg["is_async"] else "A:main"
         calls = [dict(inst=inst, args=draw_args(d, dg)) for _ in range(d.int(1, 3))]
-        op: Dict[str, Any] = dict(op="gather", calls=calls, ticker=d.bool(0.5), cancel=dict(idx=d.int(0, len(calls) - 1), at=d.int(0, 8)))
+        if mode == "cancel":
+            op: Dict[str, Any] = dict(op="gather", calls=calls, ticker=d.bool(0.5), cancel=dict(idx=d.int(0, len(calls) - 1), at=d.int(0, 8)))
+        else:
+            # a node fails while other async-thread nodes, whose completion needs the event loop to be served, are in flight:
+            # the await must still raise (and the siblings finish) - nothing may park the loop thread on them
+            op = dict(op="gather", calls=calls, ticker=True)
         scn = dict(program=spec, prebuild=[dict(dags=spec["order"]), dict(env="A", dags=spec["order"], flip_async=True)], clients=[[op]],
                    n_variants=1)
+        if mode == "loopfault":
+            scn["tick_nodes"] = "all"
+            calls_idx = [i for i, s_ in enumerate(dg["stmts"]) if s_["k"] == "call" and not spec["funcs"][s_["fn"]]["setup"]]
+            if calls_idx:
+                scn["faults"] = [dict(op=[0, 0, d.int(0, len(calls) - 1)], path=[["main", d.pick(calls_idx)]],
+                                      when=d.pick(["late", "early"]), kind=d.pick(["exc", "exc", "base"]))]
         if op["ticker"]:
             scn["fair_only"] = True
         d.choice(1)
@@ -282,8 +305,58 @@ def g_c01(d: Draw) -> dict:
     return scn_value(d, P_C01)
 
 
+P_C10F = gen.profile(p_flag=0.6, p_flag_const=0.15, w_nested=0, w_op=1.5, n_stmts=(3, 8), n_params=(0, 2))
+
+
 def g_c10(d: Draw) -> dict:
+    if d.bool(0.15):
+        scn = scn_flag_compose(d)
+        if scn is not None:
+            return scn
     return scn_value(d, P_C10, config=0.05)
+
+
+def scn_flag_compose(d: Draw) -> Optional[dict]:
+    """A DAG composed from one whose activation flags are produced by nodes that become INPUTS of the composition: each switched
+    node must follow the value supplied for its own flag (by producer and key), whatever the order of the inputs."""
+    spec = gen.gen_program(d, P_C10F)
+    dg = spec["dags"]["main"]
+    g = flat_graph(spec, "main")
+    stmts = sorted(n for n in g["nodes"] if n[0] == "s")
+    by_out = {o: i for i, s_ in enumerate(dg["stmts"]) for o in s_["out"]}
+    pidx = {x[0]: j for j, x in enumerate(dg["params"])}
+    prod = set()
+    for s_ in dg["stmts"]:
+        fl = s_.get("flag")
+        if fl and fl[0] == "v":
+            if fl[1] in by_out and dg["stmts"][by_out[fl[1]]]["k"] == "call":
+                prod.add(("s", by_out[fl[1]]))
+            elif fl[1] in pidx:
+                prod.add(("p", pidx[fl[1]]))
+    # (the history model substitutes whole results only: call-site unpacked statements are not offered as inputs)
+    unpacked = {("s", i) for i, s_ in enumerate(dg["stmts"]) if s_["k"] == "call" and s_["unpack"]}
+    prod_l = sorted(prod - unpacked)
+    if not prod_l:
+        return None
+    others = [n for n in stmts + sorted(n for n in g["nodes"] if n[0] == "p") if n not in prod and n not in unpacked]
+    in_nodes = d.sample(prod_l, d.int(1, min(2, len(prod_l)))) + d.sample(others, d.int(0, min(2, len(others))))
+    in_nodes = d.sample(in_nodes, len(in_nodes))   # random order: the flag producer is not always last
+    cand_out = [n for n in stmts if n not in in_nodes]
+    if not cand_out:
+        return None
+    outs = d.sample(cand_out, d.int(1, min(3, len(cand_out))))
+    ops: List[dict] = [dict(op="compose", inst="E:main", inputs=[alias_for(d, spec, "main", n) for n in in_nodes],
+                            outputs=[alias_for(d, spec, "main", n) for n in outs], single=False, **{"as": "cmp"})]
+    for _ in range(d.int(1, 2)):
+        vals = []
+        for n in in_nodes:
+            rt = "int"
+            if n[0] == "s" and dg["stmts"][n[1]]["k"] == "call":
+                rt = spec["funcs"][dg["stmts"][n[1]]["fn"]]["ret"]
+            vals.append(d.pick(INPUT_VALUES[rt]) if rt in INPUT_VALUES else d.pick(["0", "1", "7", "True", "False"]))
+        ops.append(dict(op="call", inst="cmp", args=vals))
+    ops.append(dict(op="call", inst="E:main", args=draw_args(d, dg)))
+    return base_scn(spec, ops)
 
 
 def g_c20(d: Draw) -> dict:
@@ -429,6 +502,13 @@ def g_c13(d: Draw) -> dict:
             scn = dict(program=spec, clients=[[dict(op="build", dags=spec["order"], expect_raise=["TawaziBaseException"])]], debug_on=debug_on)
             return scn
     ops: List[dict] = []
+    dbg_idx = [i for i, s_ in enumerate(dg["stmts"]) if s_["k"] == "call" and spec["funcs"][s_["fn"]]["debug"]]
+    if dbg_idx and d.bool(0.3):
+        # re-configuring a debug node (its priority / sequentiality) leaves it a debug node
+        nodes = []
+        for i in d.sample(dbg_idx, d.int(1, min(2, len(dbg_idx)))):
+            nodes.append([["id", i], {"priority": d.int(-3, 6)} if d.bool(0.6) else {"is_sequential": d.bool(0.5)}])
+        ops.append(dict(op="config", inst="E:main", cfg={"nodes": nodes}, how=d.pick(["dict", "json", "yaml"])))
     for _ in range(d.count(1, 3, 0.5)):
         mode = d.weighted([("call", 4), ("exec", 5), ("setup", 1)])
         if mode == "call":
@@ -527,7 +607,7 @@ reg(Prop("C11", g_c11, {"count_extra": "C11.a", "count_missing": "C11.c", "args"
 # ----------------------------------------------------------------------------- cache / compose / leak family
 P_C18 = gen.profile(**{**gen.GRAPH, "p_setup": 0.1, "n_stmts": (2, 9), "p_flag": 0.15, "p_tag": 0.0, "n_params": (0, 3),
                        "ret_types": [("int", 5), ("none", 1)]})
-P_C19 = gen.profile(**{**gen.GRAPH, "p_setup": 0.1, "n_stmts": (2, 10), "p_flag": 0.2, "p_default": 0.5, "n_params": (0, 3), "p_tag": 0.2,
+P_C19 = gen.profile(**{**gen.GRAPH, "p_setup": 0.1, "n_stmts": (2, 10), "p_flag": 0.2, "p_default": 0.5, "n_params": (0, 3), "p_tag": 0.25, "p_tag_is_id": 0.35,
                        "p_index": 0.6, "p_kwarg": 0.3, "ret_types": [("int", 5), ("tuple2", 3), ("dict", 2), ("list3", 1), ("none", 1)]})
 
 P_C15 = gen.profile(**{**gen.SCHED, "p_setup": 0.0, "n_stmts": (2, 8), "p_flag": 0.15, "n_params": (1, 3), "p_default": 0.5,
@@ -599,6 +679,9 @@ def g_c19(d: Draw) -> dict:
     stmts = sorted(n for n in g["nodes"] if n[0] == "s")
     params = sorted(n for n in g["nodes"] if n[0] == "p")
     ops: List[dict] = [dict(op="snapshot", inst="E:main"), dict(op="call", inst="E:main", args=draw_args(d, dg, 0.3))]
+    from .model import HistoryModel
+    hm = HistoryModel(base_scn(spec, []))
+    st0 = hm.inst["E:main"]
     for j in range(d.count(1, 2, 0.3)):
         if d.bool(0.08):
             ins: Any = "..."
@@ -608,13 +691,30 @@ def g_c19(d: Draw) -> dict:
             non_setup = [n for n in stmts if not (dg["stmts"][n[1]]["k"] == "call" and spec["funcs"][dg["stmts"][n[1]]["fn"]]["setup"])]
             in_nodes = d.sample(non_setup + params, d.int(0, min(3, len(stmts))))
             ins = [alias_for(d, spec, "main", n) for n in in_nodes]
+            # a string alias that is also a tag names the TAGGED node (tags win over ids): keep such an alias only when it
+            # still names one non-setup node that is not an input already; the scenario then cuts at that node
+            for q, (n, a) in enumerate(zip(list(in_nodes), list(ins))):
+                r = hm.alias_nodes(st0, a)
+                if r != [n]:
+                    if r != "ValueError" and len(r) == 1 and r[0] in non_setup and r[0] not in in_nodes:
+                        in_nodes[q] = r[0]
+                    else:
+                        ins[q] = ["ref", n[1]] if n[0] == "s" else a
         cand_out = [n for n in stmts if n not in in_nodes]
         if not cand_out:
             continue
         outs = d.sample(cand_out, d.int(1, min(2, len(cand_out))))
+        out_al = [alias_for(d, spec, "main", n) for n in outs]
+        for q, (n, a) in enumerate(zip(list(outs), list(out_al))):
+            r = hm.alias_nodes(st0, a)
+            if r != [n]:
+                if r != "ValueError" and len(r) == 1 and r[0] not in in_nodes and r[0] not in outs:
+                    outs[q] = r[0]
+                else:
+                    out_al[q] = ["ref", n[1]]
         single = len(outs) == 1 and d.bool(0.5)
         name = f"cmp{j}"
-        ops.append(dict(op="compose", inst="E:main", inputs=ins, outputs=[alias_for(d, spec, "main", n) for n in outs], single=single,
+        ops.append(dict(op="compose", inst="E:main", inputs=ins, outputs=out_al, single=single,
                         **{"as": name}, is_async=d.pick([None, None, True, False]), mc=d.pick([None, None, 2, 4])))
         vals = []
         for n in in_nodes:
@@ -758,7 +858,7 @@ reg(Prop("C16", g_c16, {"value": "C16.a", "build_table": "C16.c", "raise": "C16.
 # ----------------------------------------------------------------------------- C17 async flavour
 P_C17A = gen.profile(p_setup=0.08, p_same_inner_twice=0.0)
 P_C17B = gen.profile(**{**gen.SCHED, "resources": [("async_thread", 6), ("thread", 2), ("main_thread", 1)], "n_stmts": (2, 7),
-                        "n_params": (1, 2), "p_default": 0.2, "p_flag": 0.1, "p_setup": 0.0})
+                        "n_params": (1, 2), "p_default": 0.2, "p_flag": 0.1, "p_setup": 0.1})
 
 
 def g_c17(d: Draw) -> dict:
@@ -787,7 +887,8 @@ def g_c17(d: Draw) -> dict:
     if d.bool(0.2):
         op["cancel"] = dict(idx=d.int(0, len(calls) - 1), at=d.int(0, 6))
     elif d.bool(0.25):
-        calls_idx = [i for i, s_ in enumerate(dg["stmts"]) if s_["k"] == "call"]
+        # (not a setup node: whether a setup node runs again in a concurrent sibling await is not determined)
+        calls_idx = [i for i, s_ in enumerate(dg["stmts"]) if s_["k"] == "call" and not spec["funcs"][s_["fn"]]["setup"]]
         if calls_idx:
             scn["faults"] = [dict(op=[0, 0, d.int(0, len(calls) - 1)], path=[["main", d.pick(calls_idx)]], when=d.pick(["late", "early"]), kind="exc")]
     return scn
